@@ -32,7 +32,7 @@ func (m *impl) Exec(line string) string {
 		return "bad-op"
 	}
 	switch ws[1] {
-	case "opt", "type", "const", "block", "skip", "other":
+	case "opt", "type", "const", "block", "skip", "other", "parsable", "col":
 		if m.def == nil {
 			m.def = &Def{Opts: "-"}
 		}
@@ -45,6 +45,7 @@ func (m *impl) Exec(line string) string {
 			return "bad-op"
 		}
 		cp := *m.def
+		cp.Parsable = append([]string{}, m.def.Parsable...)
 		cp.Types = append([]TypeD{}, m.def.Types...)
 		cp.Items = append([]Item{}, m.def.Items...)
 		m.cur = m.w.get(&cp)
@@ -77,6 +78,59 @@ func (m *impl) Exec(line string) string {
 		return m.cur.probe.ask(t + " " + op + " " + ws[3])
 	case op == "parse" && len(ws) == 4:
 		return m.cur.probe.ask(t + " parse " + ws[3])
+	case (op == "trait" || op == "marshal" || op == "rt") && len(ws) == 5:
+		if op != "trait" && ws[3] != "json" && ws[3] != "yaml" && ws[3] != "text" {
+			return "bad-op"
+		}
+		if ws[4] != "all" {
+			lo, hi := kindRange(kind)
+			for _, x := range strings.Split(ws[4], ",") {
+				v, ok := new(big.Int).SetString(x, 10)
+				if !ok || v.Cmp(lo) < 0 || v.Cmp(hi) > 0 {
+					return "bad-op"
+				}
+			}
+		}
+		return m.cur.probe.ask(strings.Join([]string{t, op, ws[3], ws[4]}, " "))
+	case op == "sdec" && len(ws) == 6:
+		// the implementation side decodes the rendered document
+		td := m.cur.def.typeD(t)
+		parsable := false
+		for _, p := range m.cur.def.Parsable {
+			if p == ws[4] {
+				parsable = true
+			}
+		}
+		known := false
+		for _, c := range td.Cols {
+			if c.Name == ws[4] {
+				known = true
+			}
+		}
+		if !known {
+			return "no-trait"
+		}
+		if !parsable {
+			return "not-parsable"
+		}
+		k, p, ok := strings.Cut(ws[5], ":")
+		if !ok {
+			return "bad-op"
+		}
+		doc := ""
+		switch k {
+		case "s":
+			doc = "s:" + p
+		case "i":
+			doc = "n:" + p
+		case "b":
+			doc = "o:" + hexOf(map[string]string{"t": "true", "f": "false"}[p])
+		default:
+			return "bad-op"
+		}
+		return m.cur.probe.ask(strings.Join([]string{t, "dec", ws[3], doc}, " "))
+	case (op == "ptrait" || op == "dec") && len(ws) == 5:
+		return m.cur.probe.ask(strings.Join([]string{t, op, ws[3], ws[4]}, " "))
 	}
 	return "bad-op"
 }
